@@ -98,6 +98,77 @@ pub fn run_request(web: WebServer, prep: &Prepared) -> std::thread::Result<RawRe
     }))
 }
 
+/// two uploads served by ONE worker (one thread, one actix System, one App instance), their body
+/// chunks arriving alternately: A1, B1, A2, B2, ... — the way one HttpServer worker interleaves the
+/// requests of several connections at every `.await`
+pub fn run_interleaved(web: WebServer, preps: &[Prepared]) -> std::thread::Result<Vec<RawResult>> {
+    let specs: Vec<(Method, String, Option<Vec<u8>>, Option<String>, Vec<Vec<u8>>)> = preps
+        .iter()
+        .map(|p| (Method::from_bytes(p.method.as_bytes()).unwrap(), p.uri.clone(), p.cid_bytes.clone(), p.ct_val.clone(), p.chunks.clone()))
+        .collect();
+    std::panic::catch_unwind(std::panic::AssertUnwindSafe(|| {
+        actix_rt::System::new().block_on(async move {
+            let app = test::init_service(App::new().configure(|c| web.config(c))).await;
+            let mut senders = vec![];
+            let mut reqs = vec![];
+            for (method, uri, cid, ct, _) in &specs {
+                let mut rq = test::TestRequest::default().method(method.clone()).uri(uri);
+                if let Some(b) = cid {
+                    rq = rq.insert_header((
+                        actix_web::http::header::HeaderName::from_static("x-client-id"),
+                        actix_web::http::header::HeaderValue::from_bytes(b).unwrap(),
+                    ));
+                }
+                if let Some(ct) = ct {
+                    rq = rq.insert_header(("Content-Type", ct.clone()));
+                }
+                let (sender, pl) = actix_http::h1::Payload::create(false);
+                let req = rq.to_request();
+                let (req, _) = req.replace_payload(actix_http::Payload::from(pl));
+                senders.push(sender);
+                reqs.push(req);
+            }
+            let chunks: Vec<Vec<Vec<u8>>> = specs.iter().map(|s| s.4.clone()).collect();
+            let feeder = async move {
+                let rounds = chunks.iter().map(|c| c.len()).max().unwrap_or(0);
+                for r in 0..=rounds {
+                    for (k, s) in senders.iter_mut().enumerate() {
+                        if r < chunks[k].len() {
+                            s.feed_data(actix_web::web::Bytes::copy_from_slice(&chunks[k][r]));
+                        } else if r == chunks[k].len() {
+                            s.feed_eof();
+                        }
+                        // let the handlers run on what has arrived so far
+                        for _ in 0..4 {
+                            actix_rt::task::yield_now().await;
+                        }
+                    }
+                }
+            };
+            let calls = futures::future::join_all(reqs.into_iter().map(|r| test::try_call_service(&app, r)));
+            let (resps, _) = futures::future::join(calls, feeder).await;
+            let mut out = vec![];
+            for resp in resps {
+                out.push(match resp {
+                    Ok(resp) => {
+                        let status = resp.status().as_u16();
+                        let hdr = |n: &str| resp.headers().get(n).map(|v| v.as_bytes().to_vec());
+                        let (xv, xp, xs, ct, cc) = (hdr("X-Version-Id"), hdr("X-Parent-Version-Id"), hdr("X-Snapshot-Request"), hdr("Content-Type"), hdr("Cache-Control"));
+                        let body = test::read_body(resp).await.to_vec();
+                        Ok((status, xv, xp, xs, ct, cc, body))
+                    }
+                    Err(e) => {
+                        let r = e.error_response();
+                        let hdr = |n: &str| r.headers().get(n).map(|v| v.as_bytes().to_vec());
+                        Err((r.status().as_u16(), hdr("Cache-Control")))
+                    }
+                });
+            }
+            out
+        })
+    }))
+}
+
 pub struct HCtx {
     pub l1: Ctx,
     pub allow: Option<Vec<u32>>, // symbolic client numbers
@@ -361,6 +432,27 @@ impl HCtx {
             ["http", rest @ ..] => {
                 self.http(rest);
                 self.l1.after_op();
+            }
+            ["ileave", rest @ ..] => {
+                // ileave http ... || http ...   (bodies must be multi-chunk; different clients)
+                let joined = rest.join(" ");
+                let reqs: Vec<Vec<String>> = joined.split("||").map(|r| r.split_whitespace().map(|x| x.to_string()).collect()).collect();
+                let preps: Vec<Prepared> = reqs.iter().map(|r| { let t: Vec<&str> = r.iter().map(|s| s.as_str()).collect(); self.build(&t[1..]) }).collect();
+                let web = self.web.as_ref().unwrap().clone();
+                let now = chrono::Utc::now().timestamp();
+                let res = run_interleaved(web, &preps);
+                match res {
+                    Ok(v) => {
+                        for (p, r) in preps.into_iter().zip(v.into_iter()) {
+                            self.finish(p, Ok(r), now, None);
+                        }
+                    }
+                    Err(_) => {
+                        for p in preps {
+                            self.finish(p, Err(Box::new("panic")), now, None);
+                        }
+                    }
+                }
             }
             ["conc", mode, rest @ ..] => {
                 // conc MODE http ... || http ... ## sched tokens
